@@ -1,6 +1,7 @@
 #!/bin/sh
 # Development helper: run checks against a mutated copy of the library WITHOUT touching /repo or the
 # shared lake workspace:  seedtrial.sh <mutated-worktree> <Cxx> [more Cxx…]
+# (TIER=thorough in the environment selects the thorough tier)
 # (copies /verif incl. its build products to a scratch dir, runs `./check Cxx` there with GRID_REPO)
 set -e
 WT="$1"; shift
@@ -10,6 +11,6 @@ rsync -a --exclude replays /verif/ "$T"/ 2>/dev/null || true
 cd "$T"
 for P in "$@"; do
   echo "=== $P on $WT"
-  GRID_REPO="$WT" ./check "$P" 2>&1 | grep -v "^info:" | tail -12 || true
+  GRID_REPO="$WT" ./check "$P" --tier "${TIER:-quick}" 2>&1 | grep -v "^info:" | tail -12 || true
 done
 rm -rf "$T"
